@@ -511,6 +511,7 @@ def witnesses():
         ("F15-shared-mutation", [[Fs(Q("me"), ["alias", pid, "n1"])], [Fs(Q("me"), pid)]]),
         ("F15-shared-mutation", [[Fs(Q("me"), ["on", At("PersonFields", "favourite"), "Dog", [At("DogFields", "name")]])],
                                  [Fs(Q("me"), ["on", At("PersonFields", "favourite"), "Cat", [At("CatFields", "name")]])]]),
+        ("F15-shared-mutation", [[Fs(Q("me"), ["alias", pid, "n1"], pid)]]),     # aliased and plain, one operation
         ("F15-serialize-none", [[Fs(Q("person", id="1"), Fs(C("PersonFields", "friend"), pid))]]),
         ("F15-var-collision", [[Fs(["alias", Q("p", a=1), "u"], ["alias", C("PersonFields", "x", a=5), "v"]),
                                 Fs(Q("p", a_0=3), C("PersonFields", "x", a=7))]]),
@@ -697,7 +698,6 @@ def judge(ctx, run, j, o):
     ex = Executor(G.sdl(sc))
     results = o["results"]
     for hi, (meta, hist, pred, res) in enumerate(zip(j["meta"], j["hists"], j["pred"], results)):
-        shared_ok = True
         for oi, op in enumerate(hist):
             if oi >= len(pred) or oi >= len(res):
                 break
@@ -705,8 +705,7 @@ def judge(ctx, run, j, o):
             pr, r = pred[oi], res[oi]
             mreq, idl, guards, nodup, faithful = pr
             guards = [g == "t" for g in guards]
-            shared_ok = shared_ok and guards[0]
-            conform = guards[1]
+            conform = guards[0]
             run.dist("values_conform", str(conform))
             name = f"Op{oi}"
             replay = {**base, "history": [[e for e in p["model"]] for p in hist[: oi + 1]], "kinds": [p["kind"] for p in hist[: oi + 1]],
@@ -750,6 +749,9 @@ def judge(ctx, run, j, o):
                 if _budget(run, "k3"):
                     run.violation(f"K3 {label}: request differs from the model's prediction",
                                   {**replay, "impl": r, "model_query": mtext, "model_variables": mvars}, found_input=False)
+            if not r.get("reuse_same", True):
+                run.violation(f"K3 {label}: the same field objects sent a second time give a different request "
+                              "(theorem C14_reuse_request)", {**replay, "first": r, "second": r.get("again")})
             # ---- K3b: the property oracle on the implementation's request ----
             if model.is_error(idl):
                 run.dist("outcome", "ideal-undefined")
@@ -797,10 +799,9 @@ def judge(ctx, run, j, o):
                 run.nontrivial_case(hash(key))
             run.sample({"scenario": label, "kind": op["kind"], "expression": op["model"], "query": r["query"],
                         "variables": r["variables"], "after_operations": oi, "oracle": problems or "ok"}, limit=8)
-            run.dist("guards", f"shared_ok={shared_ok}")
             if nodup != "t":
                 run.broken("theorem instance C14_unique_var_names_operation", f"{label}: duplicate variable names in the model's request: {replay['history']}")
-            if shared_ok and conform and faithful != "t":
+            if conform and faithful != "t":
                 run.broken("theorem instance C14_doc_valid", f"{label}: no shared mutation but the model's request does not resolve to the ideal: {replay['history']}")
             if not problems:
                 run.dist("outcome", "ok")
@@ -808,12 +809,12 @@ def judge(ctx, run, j, o):
                     run.dist("soft", "model-unfaithful-but-oracle-passes")
                 continue
             run.dist("outcome", "property-fails")
-            classes = [] if shared_ok else ["F15-shared-mutation"]
-            if meta["stream"] == "witness" and meta["class"] and meta["class"] != "F15-shared-mutation":
+            classes = []
+            if meta["stream"] == "witness" and meta["class"]:
                 classes = [meta["class"]]      # a repaired class came back: reported under its name
             what = f"{label} op {oi}: " + " | ".join(problems)[:500]
             rep = {**replay, "impl": r, "ideal_query": itext, "ideal_variables": ivars, "problems": problems,
-                   "guards": {"no_shared_mutation_so_far": shared_ok, "names_distinct": nodup == "t"}}
+                   "guards": {"values_conform": conform, "names_distinct": nodup == "t"}}
             if not classes:
                 if _budget(run, "property", 8):
                     run.violation(what, rep)
